@@ -150,9 +150,64 @@ def run_history(job):
     return recs
 
 
-def run_all(copia, root, jobs, nproc=12):
+PAIR_NAMES = [(b"Ren\xe9", b"Ren\xe8"), (b"dirA", b"dira"), (b"x y", b"x  y"), (b"ab", b"a b"), (b"caf\xc3\xa9", b"cafe\xcc\x81"),
+              (b"\xff\xfe", b"\xfe\xff"), (b"a", b"a.conflict-hh-000000000000"), (b"n\xc3", b"n\xc4"), (b"tab\tx", b"tab x"), (b"UP", b"up")]
+
+
+def pair_identity(job):
+    """C07 'archive of another pair': pair (X, M) is synced; then (X', M) with X' a DIFFERENT directory whose name is
+    adversarially close to X (invalid UTF-8, case, spacing, normalisation forms).  The second run has no base."""
+    k, hexes = job
+    n1, n2 = PAIR_NAMES[k]
+    d = os.fsencode(os.path.join(CFG["dir"], f"pid{k}"))
+    shutil.rmtree(d, ignore_errors=True)
+    X, X2, M, home = os.path.join(d, n1), os.path.join(d, n2), os.path.join(d, b"mirror"), os.path.join(d, b"home")
+    for x in (X, X2, M, home):
+        os.makedirs(x)
+    for side in (X, M):
+        open(os.path.join(side, b"f"), "wb").write(CONTENT[1])
+        open(os.path.join(side, b"g"), "wb").write(CONTENT[2])
+    open(os.path.join(X2, b"f"), "wb").write(CONTENT[1])          # X' has f but not g: with pair 1's archive as base, g would be deleted from M
+    env = {os.fsencode(k2): os.fsencode(v) for k2, v in _env(os.fsdecode(home)).items()}
+    env[b"HOME"] = home
+    p1 = subprocess.run([os.fsencode(CFG["copia"]), b"bisync", X, M], env=env, stdout=subprocess.PIPE, stderr=subprocess.PIPE, timeout=60)
+    a0 = {os.fsdecode(k3): v for k3, v in tree(X2).items()} if False else tree(os.fsdecode(X2)) if _decodable(X2) else _tree_b(X2)
+    b0 = tree(os.fsdecode(M))
+    p2 = subprocess.run([os.fsencode(CFG["copia"]), b"bisync", X2, M], env=env, stdout=subprocess.PIPE, stderr=subprocess.PIPE, timeout=60)
+    a1 = tree(os.fsdecode(X2)) if _decodable(X2) else _tree_b(X2)
+    b1 = tree(os.fsdecode(M))
+    names = sorted(set(a0) | set(b0) | set(a1) | set(b1))
+    fam = [[j + 1 for j, m2 in enumerate(names) if m2 == n or m2.startswith(n + ".conflict-")] for n in names]
+    arr = lambda t: [t.get(n, 0) for n in names]
+    completed = p2.returncode == 0 or (p2.returncode == 1 and b"had conflicts" in p2.stderr)
+    return [{"seed": f"pair-identity-{k}", "step": 0, "names": names, "fam": fam, "A": arr(a0), "B": arr(b0), "E": [0] * len(names), "tr": False,
+             "last": [0] * len(names), "A2": arr(a1), "B2": arr(b1), "E2": arr(a1) if completed else [0] * len(names), "tr2": completed, "exit": p2.returncode,
+             "completed": completed, "nplan": -1, "stderr": (repr(n1) + " vs " + repr(n2) + " banner=" + str(b"SAFE no-base" in p2.stderr))}]
+
+
+def _decodable(b):
+    try:
+        b.decode("utf8")
+        return True
+    except UnicodeDecodeError:
+        return False
+
+
+def _tree_b(root):
+    out = {}
+    for dp, dn, fn in os.walk(root):
+        for f in fn:
+            p = os.path.join(dp, f)
+            out[os.fsdecode(os.path.relpath(p, root))] = BY_BYTES.get(open(p, "rb").read(), -1)
+    return out
+
+
+def run_all(copia, root, jobs, nproc=12, pairs=False):
     with Pool(nproc, initializer=_init, initargs=(copia, root)) as pool:
         out = []
         for r in pool.imap_unordered(run_history, jobs):
             out.extend(r)
+        if pairs:
+            for r in pool.imap_unordered(pair_identity, [(k, None) for k in range(len(PAIR_NAMES))]):
+                out.extend(r)
     return out
